@@ -6,14 +6,14 @@
                         [pinned] models /repo as pinned, [repaired] the three proposed repairs
                         (findings/proposed/C18-*.diff).  Which variant /repo is, is decided on the
                         real code by the harness on every run and then checked case by case.
-   Model/GatherCycle.v  the gathering-state machine as an interleaving system ([reach]).
+   Model/GatherStateCycle.v  the gathering-state machine as an interleaving system ([reach]).
    wf hypotheses        nts_ok: network types are the four known ones (sanitizeTransportNetworkTypes);
                         ifs_bytes_ok: address bytes are bytes; env_ok: the environment's STUN/TURN
                         servers report addresses of the family they were asked on and no link-local /
                         site-local / IPv4-compatible ones. *)
 From Coq Require Import ZArith Bool String List.
-From Ice Require Import Model.PrioSpec Model.GatherSpec Model.GatherCycle Gen.Names Gen.Prio
-     Proofs.GatherSpecProofs Proofs.GatherCycleProofs.
+From Ice Require Import Model.PrioSpec Model.GatherSpec Model.GatherStateCycle Gen.Names Gen.Prio
+     Proofs.GatherSpecProofs Proofs.GatherStateCycleProofs.
 Import ListNotations.
 Local Open Scope Z_scope.
 
